@@ -801,8 +801,11 @@ pub fn check(o: &CheckOpts) -> i32 {
             // confirm: 5 fresh replays
             let reps: Vec<Case> = (0..5).map(|_| mc.clone()).collect();
             let rres = run_cases(&reps, &mut oc, w, case_timeout(&mc));
-            let same = rres.iter().filter(|r| r.as_ref().map_or(false, |r| r.violation_class().as_ref() == Some(&class) && r.hash() == mr.hash())).count();
-            let conf = format!("{}/5", same);
+            // confidence = fresh replays that violate in the same class; whether the event log is bit-identical too is
+            // reported separately (a tree whose work depends on e.g. RandomState gives different tick counts per process)
+            let same = rres.iter().filter(|r| r.as_ref().map_or(false, |r| r.violation_class().as_ref() == Some(&class))).count();
+            let stable = rres.iter().filter(|r| r.as_ref().map_or(false, |r| r.hash() == mr.hash())).count();
+            let conf = if stable == same { format!("{}/5", same) } else { format!("{}/5 (event log identical in {}/5)", same, stable) };
             let origin = json!({"batch": b.name, "run_index": i, "run_seed": seed_for(o.seed, stream, i), "policy": orig_policy});
             let path = write_replay_file(&o.verif, &format!("{}-{}-{}", o.seed, b.name, i), o.seed, t.name, &origin, &mc, &mr, &conf, Some(&ms));
             println!(
